@@ -17,8 +17,13 @@ Record obs := mkObs {
   ob_end : Z
 }.
 
+(* CSessionSCT: as CSession; [nosct]: per caller, the body ids of the 200 responses whose JSON
+   decodes into the add-chain response type but which hold no decodable SCT (AddChain /
+   AddPreChain callers only): addChainWithRetry turns that success of PostAndParseWithRetry
+   into RspError{200, body} ([add_chain_result]). *)
 Inductive case :=
-| CSession (cs : list caller) (observed : list obs).
+| CSession (cs : list caller) (observed : list obs)
+| CSessionSCT (cs : list caller) (nosct : list (list Z)) (observed : list obs).
 
 Definition kind_eqb (a b : ctx_kind) : bool :=
   match a, b with KDeadline, KDeadline | KCancel, KCancel => true | _, _ => false end.
@@ -66,26 +71,43 @@ Fixpoint outs_match (os : list (option call_out)) (obs : list obs) : bool :=
 
 Definition the_conv := retry_after_duration.
 
+Definition sct_ok_of (bad : list Z) (body : Z) : bool := negb (existsb (Z.eqb body) bad).
+
+(* the i-th caller's result goes through addChainWithRetry's SCT decoding *)
+Fixpoint lift_outs (nosct : list (list Z)) (os : list (option call_out)) : list (option call_out) :=
+  match os with
+  | [] => []
+  | o :: os' =>
+      option_map (add_chain_out (sct_ok_of (hd [] nosct))) o :: lift_outs (tl nosct) os'
+  end.
+
+Definition check_with (nosct : list (list Z)) (cs : list caller) (observed : list obs) : bool :=
+  outs_match (lift_outs nosct (fst (sim the_conv cs fresh_backoff))) observed
+  && match cs, observed with
+     | [k], [ob] =>   (* one caller: the structural loop must say the same *)
+         out_matches (add_chain_out (sct_ok_of (hd [] nosct))
+                        (run_call the_conv (k_ctx k) (k_start k) fresh_backoff (k_evs k))) ob
+     | _, _ => true
+     end.
+
 Definition check (c : case) : bool :=
   match c with
-  | CSession cs observed =>
-      outs_match (fst (sim the_conv cs fresh_backoff)) observed
-      && match cs, observed with
-         | [k], [ob] =>   (* one caller: the structural loop must say the same *)
-             out_matches (run_call the_conv (k_ctx k) (k_start k) fresh_backoff (k_evs k)) ob
-         | _, _ => true
-         end
+  | CSession cs observed => check_with [] cs observed
+  | CSessionSCT cs nosct observed => check_with nosct cs observed
   end.
 
 (* what the model computes: per caller (POST instants, logged waits, jitters, scheduled next
    instants, result, return instant) *)
+Definition explain_with (nosct : list (list Z)) (cs : list caller) :=
+  map (fun o => match o with
+                | Some o => Some (o_attempts o, map r_logged (o_trace o), map r_j (o_trace o),
+                                  map r_next (o_trace o), o_res o, o_end o)
+                | None => None
+                end)
+      (lift_outs nosct (fst (sim the_conv cs fresh_backoff))).
+
 Definition explain (c : case) :=
   match c with
-  | CSession cs _ =>
-      map (fun o => match o with
-                    | Some o => Some (o_attempts o, map r_logged (o_trace o), map r_j (o_trace o),
-                                      map r_next (o_trace o), o_res o, o_end o)
-                    | None => None
-                    end)
-          (fst (sim the_conv cs fresh_backoff))
+  | CSession cs _ => explain_with [] cs
+  | CSessionSCT cs nosct _ => explain_with nosct cs
   end.
